@@ -124,6 +124,13 @@ impl<'a> LuaDocument<'a> {
     pub fn to_rowan_range(&self, range: lsp_types::Range) -> Option<TextRange> {
         let start = self.get_offset(range.start.line as usize, range.start.character as usize)?;
         let end = self.get_offset(range.end.line as usize, range.end.character as usize)?;
+        // a position past the end of a line may map past the end of the text: clamp to the text;
+        // a reversed range is not a range (TextRange::new would panic)
+        let end = end.min(TextSize::of(self.text));
+        if start > end {
+            return None;
+        }
+
         Some(TextRange::new(start, end))
     }
 
